@@ -67,7 +67,7 @@ def case_patch(draw, tier):
     ncomp = d if problem == 'elasticity' else 1
     return dict(mesh=desc, elem=d_el, k=k, problem=problem, polys=[draw(poly(d, deg)) for _ in range(ncomp)],
                 dpicks=draw(st.lists(st.integers(0, 10**4), min_size=1, max_size=10)), allD=draw(st.integers(0, 3)) == 0,
-                setup=draw(st.sampled_from(['arrays', 'arrays', 'named_parts', 'named_then_refined'])),
+                setup=draw(st.sampled_from(['arrays', 'arrays', 'named_parts', 'named_parts_union', 'named_then_refined'])),
                 parts=draw(st.integers(0, 2)) == 0,
                 lam=draw(st.sampled_from([1.0, 0.5, 2.0])), mu=draw(st.sampled_from([1.0, 0.25, 3.0])), c0=draw(st.sampled_from([1.0, 0.5, 4.0])))
 
@@ -107,7 +107,7 @@ def body_patch(c, ctx):
     # refined()
     setup = c.get('setup', 'arrays')
     selD, selN, Ddict = Dfac, Nfac, None
-    if setup == 'named_parts' and kind != 'wedge':
+    if setup in ('named_parts', 'named_parts_union') and kind != 'wedge':
         parts = {'d1': Dfac[::2]}
         if len(Dfac) > 1:
             parts['d2'] = Dfac[1::2]
@@ -212,7 +212,18 @@ def body_patch(c, ctx):
         fbD = FacetBasis(m, (skfem.ElementVector(build_element(c['elem'])) if problem == 'elasticity' else build_element(c['elem'])),
                          facets=selD, intorder=io)
         uD = fbD.project(exact)
-        D = basis.get_dofs(selD) if Ddict is None else {k_: basis.get_dofs(k_) for k_ in Ddict}
+        if Ddict is None:
+            D = basis.get_dofs(selD)
+        elif setup == 'named_parts_union':
+            import warnings
+            with warnings.catch_warnings():
+                warnings.simplefilter('ignore')
+                D = basis.get_dofs(Ddict[0])
+                for k_ in Ddict[1:]:
+                    D = D | basis.get_dofs(k_)            # the union operator of the views
+            Ddict = None
+        else:
+            D = {k_: basis.get_dofs(k_) for k_ in Ddict}
     else:
         # prisms: no facet bases; boundary values through the cell projection (the space contains the polynomial)
         uD = basis.project(exact)
